@@ -7,8 +7,10 @@ package netceptor
 //@ spec effname(s *Netceptor, name string) string := strings.EqualFold(name, "localhost") ? s.nodeID : name
 //@ spec hw(name string) int := uf("hwhash", "int", name)
 //@ spec be64(b []byte, o int) int := ((((((b[o]*256 + b[o+1])*256 + b[o+2])*256 + b[o+3])*256 + b[o+4])*256 + b[o+5])*256 + b[o+6])*256 + b[o+7]
-//@ spec isnameN(str string, b []byte, o int, n int) bool := len(str) <= n && (forall i int :: 0 <= i && i < len(str) ==> str[i] == b[o+i]) && (len(str) > 0 ==> b[o+len(str)-1] != 0) && (forall i int :: len(str) <= i && i < n ==> b[o+i] == 0)
-//@ spec padded(str string, b []byte, o int, n int) bool := forall i int :: 0 <= i && i < n ==> b[o+i] == (i < len(str) ? str[i] : 0)
+//@ spec isnameN(str string, b []byte, o int, n int) bool := len(str) <= n && (forall j int :: o <= j && j < o + len(str) ==> b[j] == str[j-o]) && (len(str) > 0 ==> b[o+len(str)-1] != 0) && (forall j int :: o + len(str) <= j && j < o + n ==> b[j] == 0)
+//@ spec padded(str string, b []byte, o int, n int) bool := forall j int :: o <= j && j < o + n ==> b[j] == (j - o < len(str) ? str[j-o] : 0)
+//@ spec hint(x int) bool
+//@ spec touch(b []byte, j int) bool := hint(b[j])
 
 //@ monitor (s *Netceptor) hashLock
 //@   protects nameHashes
@@ -30,7 +32,7 @@ package netceptor
 //@ func fixedLenBytesFromString
 //@   tags C02 C07
 //@   safety
-//@   requires l >= 0
+//@   requires LNONNEG: l >= 0
 //@   modifies nothing
 //@   ensures LEN: len(result) == l && fresh(result)
 //@   ensures PAD: padded(s, result, 0, l)
@@ -83,7 +85,7 @@ package netceptor
 //@   ensures TONODE: be64(result.0, 12) == hw(effname(s, msg.ToNode)) && (hw(effname(s, msg.ToNode)) in s.nameHashes)
 //@   ensures FROMSVC: padded(msg.FromService, result.0, 20, 8)
 //@   ensures TOSVC: padded(msg.ToService, result.0, 28, 8)
-//@   ensures PAYLOAD: forall i int :: 0 <= i && i < len(msg.Data) ==> result.0[36+i] == old(msg.Data[i])
+//@   ensures PAYLOAD: forall j int :: 36 <= j && j < 36 + len(msg.Data) ==> result.0[j] == old(msg.Data[j-36])
 
 //@ lemma svcname_roundtrip
 //@   tags C02
@@ -91,8 +93,9 @@ package netceptor
 //@   use fixedLenBytesFromString(name, 8) as enc
 //@   use stringFromFixedLenBytes(enc) as dec
 //@   hyp NONZERO: 1 <= len(name) && len(name) <= 8 && forall i int :: 0 <= i && i < len(name) ==> name[i] != 0
+//@   hyp HINTS: touch(enc, len(dec)) && touch(enc, len(name) - 1)
 //@   show LEN: len(dec) == len(name)
-//@   show BYTES: forall i int :: 0 <= i && i < len(name) ==> dec[i] == name[i]
+//@   show BYTES: forall i int :: 0 <= i && i < len(name) && touch(enc, i) ==> dec[i] == name[i]
 
 //@ lemma codec_roundtrip
 //@   tags C02
@@ -103,9 +106,99 @@ package netceptor
 //@   hyp FROMSVC: 1 <= len(msg.FromService) && len(msg.FromService) <= 8 && forall i int :: 0 <= i && i < len(msg.FromService) ==> msg.FromService[i] != 0
 //@   hyp TOSVC: 1 <= len(msg.ToService) && len(msg.ToService) <= 8 && forall i int :: 0 <= i && i < len(msg.ToService) ==> msg.ToService[i] != 0
 //@   hyp NOCOLLISION: s.nameHashes[hw(effname(s, msg.FromNode))] == effname(s, msg.FromNode) && s.nameHashes[hw(effname(s, msg.ToNode))] == effname(s, msg.ToNode)
+//@   hyp HINTS: touch(wire, 20 + len(md.FromService)) && touch(wire, 19 + len(msg.FromService)) && touch(wire, 28 + len(md.ToService)) && touch(wire, 27 + len(msg.ToService))
 //@   show OK: err1 == nil && err2 == nil && md != nil
 //@   show NODES: md.FromNode == effname(s, msg.FromNode) && md.ToNode == effname(s, msg.ToNode)
 //@   show TTL: md.HopsToLive == msg.HopsToLive
-//@   show FROMSVC: len(md.FromService) == len(msg.FromService) && forall i int :: 0 <= i && i < len(msg.FromService) ==> md.FromService[i] == msg.FromService[i]
-//@   show TOSVC: len(md.ToService) == len(msg.ToService) && forall i int :: 0 <= i && i < len(msg.ToService) ==> md.ToService[i] == msg.ToService[i]
-//@   show PAYLOAD: len(md.Data) == len(msg.Data) && forall i int :: 0 <= i && i < len(msg.Data) ==> md.Data[i] == msg.Data[i]
+//@   show FROMSVCLEN: len(md.FromService) == len(msg.FromService)
+//@   show TOSVCLEN: len(md.ToService) == len(msg.ToService)
+//@   show FROMSVC: forall i int :: 0 <= i && i < len(msg.FromService) && touch(wire, 20+i) ==> md.FromService[i] == msg.FromService[i]
+//@   show TOSVC: forall i int :: 0 <= i && i < len(msg.ToService) && touch(wire, 28+i) ==> md.ToService[i] == msg.ToService[i]
+//@   show PAYLOAD: len(md.Data) == len(msg.Data) && forall i int :: 0 <= i && i < len(msg.Data) && touch(wire, 36+i) ==> md.Data[i] == msg.Data[i]
+
+// ---- firewall decision, local dispatch, forwarding (C02 C10 C12 C16)
+
+//@ spec fwres(rule FirewallRuleFunc, md *MessageData) FirewallResult
+//@ spec decide(b intarray, o int, i int, n int, md *MessageData) int := i >= n ? 0 : (fwres(b[o+i], md) != 0 ? fwres(b[o+i], md) : decide(b, o, i+1, n, md))
+//@ spec fwdec(s *Netceptor, md *MessageData) int := decide(block(s.firewallRules), off(s.firewallRules), 0, len(s.firewallRules), md)
+//@ spec fwaccept(d int) bool := d != 2 && d != 3
+//@ spec echoes(u *UnreachableMessage, md *MessageData) bool := u.FromNode == md.FromNode && u.ToNode == md.ToNode && u.FromService == md.FromService && u.ToService == md.ToService
+//@ spec fwdcount(ttl int) int := ttl == 0 ? 0 : 1
+//@ spec fwdttl(ttl int) int := ttl - 1
+
+//@ monitor (s *Netceptor) firewallLock
+//@   protects firewallRules
+//@   inv RULESNONNIL: forall i int :: 0 <= i && i < len(s.firewallRules) ==> s.firewallRules[i] != nil
+//@ monitor (s *Netceptor) listenerLock
+//@   protects listenerRegistry
+//@   inv REGISTERED: s.listenerRegistry != nil && forall k string :: (k in s.listenerRegistry) ==> s.listenerRegistry[k] != nil && s.listenerRegistry[k].context != nil && s.listenerRegistry[k].recvChan != nil
+//@ monitor (s *Netceptor) routingTableLock
+//@   protects routingTable, routingPathCosts
+//@ monitor (s *Netceptor) connLock
+//@   protects connections
+//@   inv CONNS: s.connections != nil && forall k string :: (k in s.connections) ==> s.connections[k] != nil && s.connections[k].Context != nil
+
+//@ func functype FirewallRuleFunc
+//@   params rule, md
+//@   pure
+//@   requires MDNONNIL: md != nil
+//@   ensures result == fwres(rule, md)
+
+//@ func (*Netceptor).sendUnreachable
+//@   tags C07
+//@   requires s != nil
+
+//@ func (*Netceptor).dispatchReservedService
+//@   tags C07
+//@   requires s != nil && md != nil
+//@   ensures !result.0 ==> result.1 == nil
+
+//@ func (*Netceptor).handleMessageData
+//@   tags C02 C07 C10 C12 C16
+//@   safetytags C07 C17
+//@   safety
+//@   requires s != nil && md != nil
+//@   loop range s.firewallRules
+//@     invariant D: decide(block(s.firewallRules), off(s.firewallRules), 0, len(s.firewallRules), md) == decide(block(s.firewallRules), off(s.firewallRules), rangeindex+1, len(s.firewallRules), md)
+//@     invariant R: (rangeindex == -1 ? result == 1 : result == 0)
+//@   site call forwardMessage FWD: [C02 C10 C12] requires fwaccept(acqof("firewallLock", fwdec(s, md))) && md.ToNode != s.nodeID && arg1 == md
+//@   site call dispatchReservedService RSV: [C12] requires fwaccept(acqof("firewallLock", fwdec(s, md))) && md.ToNode == s.nodeID
+//@   site call sendUnreachable NOTICE: [C12 C16] requires arg1 == md.FromNode && echoes(arg2, md) && md.FromService != "unreach" &&
+//@        ( (acqof("firewallLock", fwdec(s, md)) == 2 && arg2.Problem == ProblemRejected)
+//@       || (fwaccept(acqof("firewallLock", fwdec(s, md))) && md.ToNode == s.nodeID && md.FromNode != s.nodeID && arg2.Problem == ProblemServiceUnknown
+//@           && acqof("listenerLock", !(md.ToService in s.listenerRegistry) || ctxerr(s.listenerRegistry[md.ToService].context) != nil)) )
+//@   ensures ATMOSTONE: [C02] ownsends() <= 1
+//@   ensures DELIVER: [C02 C12 C16] ownsends() == 1 ==> fwaccept(acqof("firewallLock", fwdec(s, md))) && old(md.ToNode == s.nodeID)
+//@        && acqof("listenerLock", md.ToService in s.listenerRegistry)
+//@        && ownsendchan(0) == acqof("listenerLock", s.listenerRegistry[md.ToService]).recvChan && ownsent("*MessageData", 0) == md
+//@   ensures DROPPED: [C12] acqof("firewallLock", fwdec(s, md)) == 3 ==> ownsends() == 0 && result == nil
+//@   ensures REJECTED: [C12] acqof("firewallLock", fwdec(s, md)) == 2 ==> ownsends() == 0 && result == nil
+//@   ensures UNKNOWNLOCAL: [C16] result != nil ==> fwaccept(acqof("firewallLock", fwdec(s, md)))
+
+//@ func (*Netceptor).forwardMessage
+//@   tags C02 C07 C10
+//@   safety
+//@   requires s != nil && md != nil
+//@   site call sendUnreachable EXPIRED: [C10] requires md.HopsToLive == 0 && md.FromService != "unreach" && arg1 == md.FromNode && echoes(arg2, md) && arg2.Problem == ProblemExpiredInTransit
+//@   site call translateDataFromMessage ENC: [C10] requires md.HopsToLive > 0 && arg1 == md
+//@   ensures COUNT: [C10] ownsends() <= fwdcount(old(md.HopsToLive))
+//@   ensures TTL0: [C10] old(md.HopsToLive) == 0 ==> result == nil
+//@   ensures SENTOK: [C10 C02] result == nil && old(md.HopsToLive) > 0 ==> ownsends() == 1
+//@   ensures NEXTHOP: [C02 C10] ownsends() == 1 ==> acqof("routingTableLock", md.ToNode in s.routingTable)
+//@        && ownsendchan(0) == acqof("connLock", s.connections[acqof("routingTableLock", s.routingTable[md.ToNode])]).WriteChan
+//@   ensures WIRE: [C02 C10] ownsends() == 1 ==> len(ownsent("[]byte", 0)) == 36 + len(md.Data) && ownsent("[]byte", 0)[0] == 0
+//@        && ownsent("[]byte", 0)[1] == fwdttl(old(md.HopsToLive))
+//@        && be64(ownsent("[]byte", 0), 4) == hw(effname(s, md.FromNode)) && be64(ownsent("[]byte", 0), 12) == hw(effname(s, md.ToNode))
+//@        && padded(md.FromService, ownsent("[]byte", 0), 20, 8) && padded(md.ToService, ownsent("[]byte", 0), 28, 8)
+//@        && (forall j int :: 36 <= j && j < 36 + len(md.Data) ==> ownsent("[]byte", 0)[j] == old(md.Data[j-36]))
+
+//@ lemma hopbound
+//@   tags C10
+//@   vars k int
+//@   smt (declare-fun T (Int) Int)
+//@   hyp H0: uf("T", "int", 0) <= fwdcount(0)
+//@   hyp HS: forall h int :: h > 0 ==> uf("T", "int", h) <= fwdcount(h) + uf("T", "int", fwdttl(h))
+//@   hyp IH: k >= 0 && uf("T", "int", k) <= k
+//@   show BASE: uf("T", "int", 0) <= 0
+//@   show STEP: uf("T", "int", k+1) <= k+1
+//@   trust induction schema over the hop budget; H0/HS restate forwardMessage#ensures:COUNT/WIRE (at most fwdcount(h) own sends, each with budget fwdttl(h))
